@@ -174,11 +174,11 @@ func runC01(r *Run) {
 	r.floor("R01.8", 5)
 	ruleBranchResolution(r, "R01.8")
 	r.floor("R01.9", 12)
-	for _, m := range []string{"Commit", "Rollback", "TransactionWriteRegister", "RATCommit", "RATRollback", "RATFlush", "InitRAT", "TransactionRATWrite"} {
+	for _, m := range []string{"Commit", "Rollback", "TransactionWriteRegister", "RATCommit", "RATRollback", "RATFlush", "InitRAT", "TransactionRATWrite", "commitRAT", "isSuperseded"} {
 		conform(r, "R01.9", "risc", "Context", m, "risc_state", nil)
 	}
 	conform(r, "R01.9", "risc", "", "registerRead", "risc_state", nil)
-	for _, m := range []string{"Find", "FindValues", "Write", "Read"} {
+	for _, m := range []string{"Find", "FindValues", "Write", "Read", "WriteSorted"} {
 		conform(r, "R01.9", "proc/comp", "RAT", m, "risc_state", nil)
 	}
 	// R01.4
